@@ -28,6 +28,11 @@ func verifItoa(v int64) string
 // solver variable and assumed finite.
 func verifFtoa(f float64) string
 
+// verifShared runs f. Symbolically, every store f performs into state that existed before the harness started
+// (package-level state and what it reaches) is reported: two evaluations running at the same time would both perform
+// it. Natively (replay) f runs in two goroutines at once under the Go race detector. f must not call verif* functions.
+func verifShared(f func())
+
 func verifAssume(c bool)
 func verifAssert(c bool, label string)
 func verifFail(label string)
